@@ -3,14 +3,20 @@
 /verif/seeded/<property>/<n>/ with patch.diff, demo.rs and a meta.json that records what was run to confirm it."""
 import json, os, shutil, sys
 VERIF = os.path.dirname(os.path.dirname(os.path.abspath(__file__)))
-for sd in sys.argv[1:]:
+OFFSET = 0
+ARGS = sys.argv[1:]
+if '--offset' in ARGS:
+    i = ARGS.index('--offset')
+    OFFSET = int(ARGS[i + 1])
+    del ARGS[i:i + 2]
+for sd in ARGS:
     sd = sd.rstrip("/")
     v = json.load(open(os.path.join(sd, "verified.json")))
     if not v.get("confirmed"):
         print("NOT confirmed, skipped:", sd)
         continue
     meta = json.load(open(os.path.join(sd, "meta.json")))
-    pid, n = meta["property"], os.path.basename(sd)
+    pid, n = meta["property"], str(int(os.path.basename(sd)) + OFFSET)
     dest = os.path.join(VERIF, "seeded", pid, n)
     os.makedirs(dest, exist_ok=True)
     shutil.copy(os.path.join(sd, "patch.diff"), dest)
@@ -18,7 +24,7 @@ for sd in sys.argv[1:]:
     out = {"property": pid, "summary": meta.get("summary"), "needs": meta.get("needs"),
            "demo_file": "%stests/%s.rs (copy demo.rs there)" % ("temporal_capi/" if "-p temporal_capi" in v["demo_cmd"] else "",
                                                                   v["demo_cmd"].split("--test ")[1].split()[0]),
-           "demo_cmd": v["demo_cmd"], "author": "fresh sub-agent given only the property text and a scratch worktree",
+           "demo_cmd": v["demo_cmd"], "round": 2 if OFFSET else 1, "author": "fresh sub-agent given only the property text and a scratch worktree",
            "confirmed_by_me": {"base_commit": v["head"], "scratch_worktree": "/tmp/seedv (removed afterwards)",
                                "ran": ["git apply patch.diff", "cargo build --workspace --offline",
                                        "cargo build --offline --features compiled_data", v["demo_cmd"] + "  (with patch: fails)",
